@@ -193,3 +193,40 @@ pub assume_specification[ <usize as core::str::FromStr>::from_str ](s: &str) -> 
     ensures
         r is Ok <==> usize_from_str(s@) is Some,
         r is Ok ==> r->Ok_0 == usize_from_str(s@)->0;
+
+// ---- neighbouring std API (not used by the crate today), specified with uninterpreted results so that a change that
+// ---- switches to one of them is refuted against the oracle instead of being a tool limit ------------------------------
+pub uninterp spec fn f64_trunc(a: f64) -> f64;
+pub uninterp spec fn f64_ceil(a: f64) -> f64;
+pub uninterp spec fn f64_abs(a: f64) -> f64;
+pub uninterp spec fn f64_round_ties_even(a: f64) -> f64;
+pub uninterp spec fn f64_is_finite(a: f64) -> bool;
+pub uninterp spec fn f64_is_nan(a: f64) -> bool;
+pub assume_specification[ f64::trunc ](a: f64) -> (r: f64) ensures r == f64_trunc(a);
+pub assume_specification[ f64::ceil ](a: f64) -> (r: f64) ensures r == f64_ceil(a);
+pub assume_specification[ f64::abs ](a: f64) -> (r: f64) ensures r == f64_abs(a);
+pub assume_specification[ f64::round_ties_even ](a: f64) -> (r: f64) ensures r == f64_round_ties_even(a);
+pub assume_specification[ f64::is_finite ](a: f64) -> (r: bool) ensures r == f64_is_finite(a);
+pub assume_specification[ f64::is_nan ](a: f64) -> (r: bool) ensures r == f64_is_nan(a);
+
+pub uninterp spec fn str_eq_ignore_ascii_case(a: Seq<char>, b: Seq<char>) -> bool;
+pub assume_specification[ str::eq_ignore_ascii_case ](a: &str, b: &str) -> (r: bool) ensures r == str_eq_ignore_ascii_case(a@, b@);
+pub uninterp spec fn str_starts_with(a: Seq<char>, p: Seq<char>) -> bool;
+pub uninterp spec fn str_ends_with(a: Seq<char>, p: Seq<char>) -> bool;
+pub assume_specification<P: core::str::pattern::Pattern>[ str::starts_with::<P> ](s: &str, p: P) -> (r: bool)
+    ensures r == str_starts_with(s@, pattern_str(p));
+pub uninterp spec fn str_trim_start(s: Seq<char>) -> Seq<char>;
+pub uninterp spec fn str_trim_end(s: Seq<char>) -> Seq<char>;
+pub assume_specification[ str::trim_start ](s: &str) -> (r: &str) ensures r@ == str_trim_start(s@);
+pub assume_specification[ str::trim_end ](s: &str) -> (r: &str) ensures r@ == str_trim_end(s@);
+pub uninterp spec fn str_to_ascii_uppercase(s: Seq<char>) -> Seq<char>;
+pub uninterp spec fn str_to_ascii_lowercase(s: Seq<char>) -> Seq<char>;
+pub assume_specification[ str::to_ascii_uppercase ](s: &str) -> (r: String) ensures r@ == str_to_ascii_uppercase(s@);
+pub assume_specification[ str::to_ascii_lowercase ](s: &str) -> (r: String) ensures r@ == str_to_ascii_lowercase(s@);
+
+pub assume_specification<T>[ Option::<T>::or ](a: Option<T>, b: Option<T>) -> (r: Option<T>)
+    ensures r == (if a is Some { a } else { b });
+pub assume_specification<T, F: FnOnce() -> Option<T>>[ Option::<T>::or_else::<F> ](a: Option<T>, f: F) -> (r: Option<T>)
+    ensures a is Some ==> r == a, a is None ==> call_ensures(f, (), r);
+pub assume_specification<T, E, F, O: FnOnce(E) -> core::result::Result<T, F>>[ core::result::Result::<T, E>::or_else::<F, O> ](a: core::result::Result<T, E>, op: O) -> (r: core::result::Result<T, F>)
+    ensures a is Ok ==> r is Ok && r->Ok_0 == a->Ok_0, a is Err ==> call_ensures(op, (a->Err_0,), r);
